@@ -83,13 +83,40 @@ impl PartialOrd for LocalSegment {
     }
 }
 
+/// Digits of an all-digit local part without leading zeros. Numeric parts that do not fit `u32`
+/// are kept as text by the parser; they still order as numbers.
+fn local_numeric_text(s: &str) -> Option<&str> {
+    if s.is_empty() || !s.bytes().all(|b| b.is_ascii_digit()) {
+        return None;
+    }
+    let trimmed = s.trim_start_matches('0');
+    Some(if trimmed.is_empty() { "0" } else { trimmed })
+}
+
+fn compare_numeric_text(a: &str, b: &str) -> Ordering {
+    a.len().cmp(&b.len()).then_with(|| a.cmp(b))
+}
+
 impl Ord for LocalSegment {
     fn cmp(&self, other: &Self) -> Ordering {
         match (self, other) {
             (LocalSegment::UInt(a), LocalSegment::UInt(b)) => a.cmp(b),
-            (LocalSegment::Str(a), LocalSegment::Str(b)) => a.to_lowercase().cmp(&b.to_lowercase()),
-            (LocalSegment::UInt(_), LocalSegment::Str(_)) => Ordering::Less,
-            (LocalSegment::Str(_), LocalSegment::UInt(_)) => Ordering::Greater,
+            (LocalSegment::Str(a), LocalSegment::Str(b)) => {
+                match (local_numeric_text(a), local_numeric_text(b)) {
+                    (Some(x), Some(y)) => compare_numeric_text(x, y),
+                    (Some(_), None) => Ordering::Less,
+                    (None, Some(_)) => Ordering::Greater,
+                    (None, None) => a.to_lowercase().cmp(&b.to_lowercase()),
+                }
+            }
+            (LocalSegment::UInt(a), LocalSegment::Str(b)) => match local_numeric_text(b) {
+                Some(y) => compare_numeric_text(&a.to_string(), y),
+                None => Ordering::Less,
+            },
+            (LocalSegment::Str(a), LocalSegment::UInt(b)) => match local_numeric_text(a) {
+                Some(x) => compare_numeric_text(x, &b.to_string()),
+                None => Ordering::Greater,
+            },
         }
     }
 }
